@@ -3,6 +3,7 @@
 this is where the armorable PGP block objects live
 """
 import binascii
+import calendar
 import collections
 try:
     import collections.abc as collections_abc
@@ -3128,8 +3129,12 @@ class PGPKeyring(collections_abc.Container, collections_abc.Iterable, collection
         #
         # this list is sorted in the opposite direction from that, because they will be placed into self._aliases
         # from right to left.
+        # the creation time is compared as the key packet states it (whole seconds, UTC): the datetime of a key made
+        # with PGPKey.new() may be naive, which does not compare with the aware one of a key that was read, and it
+        # carries microseconds that the exported key does not have
         pkids = sorted(list(set().union(m.pop(alias) for m in self._aliases if alias in m)),
-                       key=lambda pkid: (self._keys[pkid].created, self._keys[pkid].is_public))
+                       key=lambda pkid: (calendar.timegm(self._keys[pkid].created.utctimetuple()),
+                                         self._keys[pkid].is_public))
 
         # drop the now-sorted aliases into place
         for depth, pkid in enumerate(pkids):
